@@ -102,19 +102,58 @@ class Comm:
         self._collect("barrier", None)
 
 
-def run_spmd(size, program, *, call=None, max_rounds=12):
-    """Run ``program(comm)`` on every rank; returns (world, results)."""
+class RankRaised:
+    """Outcome of a rank whose program raised (it takes no further part in
+    collectives)."""
+
+    def __init__(self, exc):
+        self.exc = exc
+
+
+class RankBlocked:
+    """Outcome of a rank left waiting in a collective that can never
+    complete (a peer raised before reaching it): in real MPI it hangs."""
+
+    def __init__(self, collective):
+        self.collective = collective
+
+
+def run_spmd(size, program, *, call=None, max_rounds=12,
+             record_exceptions=False, passthrough=()):
+    """Run ``program(comm)`` on every rank; returns (world, results).
+
+    With *record_exceptions* a rank that raises gets a ``RankRaised`` outcome
+    and the others go on; those that then wait for it for ever get
+    ``RankBlocked``."""
     world = World(size)
     results: dict[int, object] = {}
+    waiting: dict[int, object] = {}
     for _round in range(max_rounds):
+        progress = False
         for r in range(size):
             if r in results:
                 continue
+            before = sum(len(v) for v in world.contrib.values())
             try:
                 results[r] = program(Comm(world, r, call=call))
-            except NeedOthers:
-                pass
+                progress = True
+            except NeedOthers as e:
+                waiting[r] = e.args[0] if e.args else None
+                if sum(len(v) for v in world.contrib.values()) != before:
+                    progress = True
+            except passthrough:
+                raise
+            except Exception as e:  # noqa: BLE001
+                if not record_exceptions:
+                    raise
+                results[r] = RankRaised(e)
+                progress = True
         if len(results) == size:
+            return world, [results[r] for r in range(size)]
+        if not progress and record_exceptions:
+            for r in range(size):
+                if r not in results:
+                    results[r] = RankBlocked(waiting.get(r))
             return world, [results[r] for r in range(size)]
     raise RuntimeError("SPMD simulation did not converge (mismatched "
                        "collectives between ranks?)")
